@@ -246,3 +246,390 @@ Proof.
   - apply (content_law (abs p) new dest (abs p') s (or_intror (ex_intro _ e Ga))).
 Qed.
 End ContentMachine.
+
+(* ------------------------------------------------------------------------------------------ *)
+(* Part B: segment bookkeeping                                                                  *)
+(* ------------------------------------------------------------------------------------------ *)
+Notation seg := (N * N * bytes)%type.
+Definition nonempty_segs (LS : list seg) : Prop := Forall (fun s : seg => snd s <> []) LS.
+
+(* what a read (successful or not) does to the segment list: empty segments in front may be dropped; a delivery takes
+   a prefix of the first segment with bytes left *)
+Definition rd_segs (sg : list seg) (x : bytes + N) (sg' : list seg) : Prop :=
+  match x with
+  | inl b => (b = [] /\ exists E, flat E = [] /\ sg = E ++ sg') \/
+             (exists E ge gm bb rest n, flat E = [] /\ sg = E ++ (ge, gm, bb) :: rest /\ bb <> [] /\ b = take n bb /\
+                                        sg' = (ge, gm, drop n bb) :: rest)
+  | inr _ => exists E, flat E = [] /\ sg = E ++ sg'
+  end.
+
+Lemma rd_segs_pre E sg x sg' : flat E = [] -> rd_segs sg x sg' -> rd_segs (E ++ sg) x sg'.
+Proof.
+  intros HF. destruct x as [b|k]; cbn [rd_segs].
+  - intros [(Hb & E1 & H1 & ->)|(E1 & ge & gm & bb & rest & n & H1 & -> & H3 & H4 & H5)].
+    + left. split; [exact Hb|]. exists (E ++ E1). split; [rewrite flat_map_app, HF, H1; reflexivity|apply app_assoc].
+    + right. exists (E ++ E1), ge, gm, bb, rest, n. split; [rewrite flat_map_app, HF, H1; reflexivity|].
+      split; [apply app_assoc|]. split; [exact H3|]. split; assumption.
+  - intros (E1 & H1 & ->). exists (E ++ E1). split; [rewrite flat_map_app, HF, H1; reflexivity|apply app_assoc].
+Qed.
+
+Lemma t_poll_read_rd L w pr w1 : t_poll_read L w = (pr, w1) ->
+  match pr with
+  | PReady x => rd_segs (segs w) x (segs w1)
+  | PWake => exists E, flat E = [] /\ segs w = E ++ segs w1
+  | PBlock => w1 = w
+  end.
+Proof.
+  intros ET. pose proof (t_poll_read_segs _ _ _ _ ET) as S2. destruct pr as [[b|k]| |]; cbv beta iota in S2; cbn [rd_segs].
+  - destruct S2 as [H|(E0 & ge & gm & bb & rest & n & H1 & H2 & H3 & H4 & H5 & _)]; [left; exact H|].
+    right. exists E0, ge, gm, bb, rest, n. repeat split; assumption.
+  - exact S2.
+  - exact S2.
+  - unfold t_poll_read in ET. destruct (L =? 0); [discriminate ET|].
+    destruct (skip_empty_segs (segs w)) as [|[[ge gm] b] rest]; [discriminate ET|].
+    destruct (count_records (length (wlog w)) (wlog w) 0 0) as [e m].
+    destruct ((e <? ge) || (m <? gm)); [injection ET as <-; reflexivity|].
+    destruct (rscript w) as [|r t]; cbv beta iota zeta in ET.
+    + destruct (L =? 0); [discriminate ET|]. destruct (L =? R_ERR); discriminate ET.
+    + destruct (r =? 0); [discriminate ET|]. destruct (r =? R_ERR); discriminate ET.
+Qed.
+
+Lemma await_read_rd : forall fuel sel L w x w', await_read fuel sel L w = Ok x w' -> rd_segs (segs w) x (segs w').
+Proof.
+  induction fuel as [|f IH]; intros sel L w x w' E; [discriminate E|]. cbn [await_read] in E.
+  destruct (t_poll_read L w) as [pr w1] eqn:ET. pose proof (t_poll_read_rd _ _ _ _ ET) as S2.
+  destruct pr as [y| |].
+  - injection E as <- <-. exact S2.
+  - unfold on_wake in E. destruct (sel && stopped (w_bump w1)); [discriminate E|].
+    destruct S2 as (E0 & HF & ->). apply rd_segs_pre; [exact HF|]. apply (IH _ _ _ _ _ E).
+  - subst w1. unfold on_block in E. destruct (negb (stop_at w =? 0) && negb (stopped w)); [|discriminate E].
+    destruct sel; [discriminate E|]. apply (IH _ _ _ _ _ E).
+Qed.
+
+(* empty segments dropped in front: they belong to the current segment's part *)
+Lemma split_empties (LS : list seg) : nonempty_segs LS -> forall E cur sg', cur ++ LS = E ++ sg' -> flat E = [] ->
+  exists cur', cur = E ++ cur' /\ sg' = cur' ++ LS.
+Proof.
+  intros HLS. induction E as [|e E IH]; intros cur sg' Es HF.
+  - exists cur. split; [reflexivity|]. symmetry. exact Es.
+  - cbn [flat_map] in HF. apply app_eq_nil in HF. destruct HF as [He HF].
+    destruct cur as [|c cur0].
+    + exfalso. cbn [app] in Es. rewrite Es in HLS. inversion HLS as [|? ? H1 _]; subst. apply H1, He.
+    + cbn [app] in Es. injection Es as -> Es. destruct (IH cur0 sg' Es HF) as (cur' & -> & ->).
+      exists cur'. split; reflexivity.
+Qed.
+
+(* the first segment with bytes left is part of the current segment, or (nothing of it being left) the next one *)
+Lemma split_read (LS : list seg) : nonempty_segs LS -> forall E cur x rest, cur ++ LS = E ++ x :: rest -> flat E = [] ->
+  snd x <> [] ->
+  (exists c2, cur = E ++ x :: c2 /\ rest = c2 ++ LS) \/ (flat cur = [] /\ LS = x :: rest).
+Proof.
+  intros HLS. induction E as [|e E IH]; intros cur x rest Es HF Hx.
+  - destruct cur as [|c c0]; cbn [app] in Es.
+    + right. split; [reflexivity|exact Es].
+    + injection Es as -> Es. left. exists c0. split; [reflexivity|symmetry; exact Es].
+  - cbn [flat_map] in HF. apply app_eq_nil in HF. destruct HF as [He HF].
+    destruct cur as [|c cur0].
+    + exfalso. cbn [app] in Es. rewrite Es in HLS. inversion HLS as [|? ? H1 _]; subst. apply H1, He.
+    + cbn [app] in Es. injection Es as -> Es. destruct (IH cur0 x rest Es HF Hx) as [(c2 & -> & ->)|(H1 & H2)].
+      * left. exists c2. split; reflexivity.
+      * right. split; [cbn [flat_map]; rewrite He, H1; reflexivity|exact H2].
+Qed.
+
+(* a read seen from "rest of the current segment ++ segments not yet opened" *)
+Lemma rd_split (LS : list seg) cur x sg' : nonempty_segs LS -> rd_segs (cur ++ LS) x sg' ->
+  match x with
+  | inl b => (exists cur', sg' = cur' ++ LS /\ flat cur = b ++ flat cur') \/
+             (flat cur = [] /\ exists ge gm bb rest n, LS = (ge, gm, bb) :: rest /\ bb <> [] /\ b = take n bb /\
+                                                     sg' = (ge, gm, drop n bb) :: rest)
+  | inr _ => exists cur', sg' = cur' ++ LS /\ flat cur = flat cur'
+  end.
+Proof.
+  intros HLS. destruct x as [b|k]; cbn [rd_segs].
+  - intros [(-> & E & HF & Es)|(E & ge & gm & bb & rest & n & HF & Es & Hbb & -> & ->)].
+    + destruct (split_empties LS HLS E cur sg' Es HF) as (cur' & -> & ->). left. exists cur'. split; [reflexivity|].
+      rewrite flat_map_app, HF. reflexivity.
+    + destruct (split_read LS HLS E cur (ge, gm, bb) rest Es HF Hbb) as [(c2 & -> & ->)|(H1 & H2)].
+      * left. exists ((ge, gm, drop n bb) :: c2). split; [reflexivity|].
+        rewrite flat_map_app, HF. cbn [flat_map snd app]. rewrite app_assoc, take_drop. reflexivity.
+      * right. split; [exact H1|]. exists ge, gm, bb, rest, n. repeat split; assumption.
+  - intros (E & HF & Es). destruct (split_empties LS HLS E cur sg' Es HF) as (cur' & -> & ->). exists cur'. split; [reflexivity|].
+    rewrite flat_map_app, HF. reflexivity.
+Qed.
+
+(* ------------------------------------------------------------------------------------------ *)
+(* Part C: the invariant of a request in progress                                               *)
+(* ------------------------------------------------------------------------------------------ *)
+Section Layers4.
+Variable maxc : N.
+(* the size of the parser's buffer; the stream records of the request in progress; the segments not yet opened *)
+Variable CAP : N.
+Variable srs : list rcd.
+Variable LS : list seg.
+Hypothesis Hsrs : Forall rcd_ok srs.
+Hypothesis HLS : nonempty_segs LS.
+
+(* [cur]: what is left of the segment of the request in progress.  From the parser's framing position, the bytes it
+   holds, the bytes read but not yet fed and the rest of the segment are the rest of one record and then a suffix of the
+   request's stream records; the structure walk of PeerProofs3 over them is complete *)
+Definition Kc (a : ast) (new : bytes) (sg : list seg) : Prop :=
+  a_B a = CAP /\ exists vm tl cur, SREL a vm /\ sfx tl srs /\ sg = cur ++ LS /\
+    CW (a_prem a) (a_pad a) (a_raw a ++ new ++ flat cur) tl /\
+    VB vm (a_prem a) (a_pad a) (a_raw a ++ new ++ flat cur) = true.
+
+Lemma Kc_same a a' new sg : a_B a' = a_B a -> a_raw a' = a_raw a -> a_prem a' = a_prem a -> a_pad a' = a_pad a ->
+  a_req a' = a_req a -> a_stream a' = a_stream a -> Kc a new sg -> Kc a' new sg.
+Proof.
+  intros E1 E2 E3 E4 E5 E6 (HB & vm & tl & cur & HS & Hs & Hsg & HC & HV).
+  split; [congruence|]. exists vm, tl, cur. rewrite E2, E3, E4.
+  split; [apply (SREL_same a); assumption|]. repeat split; assumption.
+Qed.
+
+Lemma Kc_sparse p new dest sg : pinv p -> Kc (abs p) new sg ->
+  match sparse maxc p new dest with
+  | StOk p' _ | StErr p' _ _ => Kc (abs p') [] sg
+  | StPanic _ => True
+  end.
+Proof.
+  intros Hinv (HB & vm & tl & cur & HS & Hs & Hsg & HC & HV).
+  pose proof (sparse_content maxc p new dest Hinv) as SC.
+  pose proof (sparse_struct maxc p new dest vm Hinv HS) as SV.
+  destruct (sparse maxc p new dest) as [p' s|p' e s|n]; [| |exact I];
+    destruct SC as [B1 SC]; destruct SV as (vm' & HS' & LV);
+    destruct (SC tl (flat cur) (sfx_Forall _ _ _ Hs Hsrs) HC) as (tl' & S' & C');
+    (split; [congruence|]); exists vm', tl', cur; (split; [exact HS'|]); (split; [apply (sfx_trans _ _ _ S' Hs)|]);
+    (split; [exact Hsg|]); cbn [app]; (split; [exact C'|apply LV; exact HV]).
+Qed.
+
+Lemma Kc_skip a new sg E sg' : flat E = [] -> sg = E ++ sg' -> Kc a new sg -> Kc a new sg'.
+Proof.
+  intros HF -> (HB & vm & tl & cur & HS & Hs & Hsg & HC & HV).
+  destruct (split_empties LS HLS E cur sg' (eq_sym Hsg) HF) as (cur' & -> & ->).
+  split; [exact HB|]. exists vm, tl, cur'. rewrite flat_map_app, HF in HC, HV. repeat split; assumption.
+Qed.
+
+(* a read at a place where the structure walk over the bytes held is not complete takes bytes of the current segment *)
+Lemma Kc_rd a sg x sg' : rd_segs sg x sg' -> Kc a [] sg -> (forall vm, SREL a vm -> VA vm a [] = false) ->
+  match x with inl b => Kc a b sg' | inr _ => Kc a [] sg' end.
+Proof.
+  intros RD (HB & vm & tl & cur & HS & Hs & -> & HC & HV) Hno.
+  pose proof (rd_split LS cur x sg' HLS RD) as SP. cbn [app] in HC, HV. destruct x as [b|k].
+  - destruct SP as [(cur' & -> & Ef)|(Ef & _)].
+    + split; [exact HB|]. exists vm, tl, cur'. rewrite Ef in HC, HV. repeat split; assumption.
+    + exfalso. specialize (Hno vm HS). unfold VA in Hno. rewrite Ef in HV. rewrite HV in Hno. discriminate Hno.
+  - destruct SP as (cur' & -> & Ef). split; [exact HB|]. exists vm, tl, cur'. cbn [app]. rewrite <- Ef. repeat split; assumption.
+Qed.
+
+Lemma input_loop_K : forall fuel dest new r w p r' w',
+  pinv (rsp r) -> bytes_ok (remaining w) -> bytes_ok new -> len new <= sinput_space (rsp r) ->
+  stream_buffer (rsp r) = [] -> dest <> Some 0 ->
+  (length (wscript w) + length (remaining w) + 2 <= fuel)%nat ->
+  input_loop maxc fuel dest new r w = (p, r', w') ->
+  Kc (abs (rsp r)) new (segs w) -> Kc (abs (rsp r')) [] (segs w').
+Proof.
+  induction fuel as [|f IH]; intros dest new r w p r' w' Hinv Hrem Hnew Hfit Hsb Hd0 Hf E HK; [lia|].
+  cbn [input_loop] in E.
+  pose proof (sparse_step maxc (rsp r) new dest Hinv Hnew Hfit ltac:(intros _; exact Hsb)) as SS.
+  pose proof (Kc_sparse (rsp r) new dest (segs w) Hinv HK) as SK.
+  destruct (sparse maxc (rsp r) new dest) as [p1 s|p1 e s|n] eqn:ESP; [| |contradiction].
+  2:{ injection E as <- <- <-. cbn [rsp]. exact SK. }
+  destruct SS as (SO & Hend).
+  destruct (s_end s || (0 <? s_stream s)) eqn:Edone.
+  { match type of E with (_, (if ?c then _ else _), _) = _ => destruct c end; injection E as <- <- <-; cbn [rsp]; exact SK. }
+  apply orb_false_iff in Edone. destruct Edone as [Eend Estr].
+  assert (Hz : s_stream s = 0) by (destruct (N.ltb_spec 0 (s_stream s)); [discriminate|lia]).
+  assert (Hsb1 : stream_buffer p1 = []).
+  { destruct dest as [c|].
+    - destruct (so_some _ _ _ _ _ _ SO c eq_refl) as (A & _). exact A.
+    - destruct (so_none _ _ _ _ _ _ SO eq_refl) as (_ & d & B & C). rewrite B, Hsb.
+      assert (d = []) by (apply len_zero_nil; lia). subst d. reflexivity. }
+  pose proof (so_inv _ _ _ _ _ _ SO) as [RI1 A1].
+  destruct (compress_views p1 RI1) as (V1 & V2 & V3 & V4 & V5 & V6).
+  pose proof (compress_abs p1 RI1) as CA.
+  pose proof (sparse_stuck maxc (rsp r) new dest p1 s Hinv Hnew Hfit ltac:(intros _; exact Hsb) Hd0 ESP Eend Hz) as ST.
+  assert (HV1 : forall vm, SREL (abs p1) vm -> VA vm (abs p1) [] = false).
+  { intros vm1 HS1. destruct (a_stream (abs p1)) as [ta|] eqn:Es.
+    - apply (stuck_quiet_V (abs p1) vm1 ta HS1 Es (stuck_E _ ST)).
+    - exfalso. assert (H : s_end s = true) by (apply Hend; left; exact Es). rewrite H in Eend. discriminate Eend. }
+  set (r2 := mkR (compress p1) (rwriteable r) (rlock r) (raborted r)) in E.
+  assert (Hinv2 : pinv (rsp r2)).
+  { split; [exact V1|]. cbn [r2 rsp]. rewrite CA. apply compress_inv. exact A1. }
+  destruct (poll_output (S f) r2 w) as [[po r3] w0] eqn:EPO.
+  destruct (poll_output_abs _ _ _ _ _ _ EPO Hinv2 ltac:(lia))
+    as (fl & P1 & P2 & P3 & P4 & P5 & P6 & P7 & P8 & P9 & P10 & P11 & P12).
+  cbn [r2 rsp rwriteable] in P4, P5, P6, P7, P8, P9, P11.
+  pose proof (same_but_io_remaining _ _ P2) as Prem.
+  assert (Psegs : segs w0 = segs w) by apply P2.
+  assert (K3 : Kc (abs (rsp r3)) [] (segs w0)).
+  { rewrite Psegs, P5, CA. exact SK. }
+  assert (HV3 : forall vm, SREL (abs (rsp r3)) vm -> VA vm (abs (rsp r3)) [] = false).
+  { rewrite P5, CA. exact HV1. }
+  destruct po as [[u|k]| |].
+  - destruct (t_poll_read (sinput_space (rsp r3)) w0) as [pr w1] eqn:ER.
+    destruct (t_poll_read_rem _ _ _ _ ER) as (T1 & T2 & T3 & T4).
+    pose proof (t_poll_read_rd _ _ _ _ ER) as RD.
+    destruct pr as [[b|k]| |].
+    + pose proof (Kc_rd _ _ _ _ RD K3 HV3) as K4. cbv beta iota in K4.
+      destruct T4 as (Tr & Tl & Tnil). destruct b as [|x b'].
+      * injection E as <- <- <-. exact K4.
+      * assert (Hb : bytes_ok ((x :: b') ++ remaining w1)) by (rewrite <- Tr, Prem; exact Hrem).
+        apply bytes_ok_app in Hb.
+        assert (Hf' : (length (wscript w1) + length (remaining w1) + 2 <= f)%nat).
+        { rewrite T2. pose proof (suffix_length _ _ P3). rewrite <- Prem, Tr in Hf.
+          cbn [app length] in Hf. rewrite app_length in Hf. lia. }
+        apply (IH dest (x :: b') r3 w1 p r' w' P10 (proj2 Hb) (proj1 Hb) Tl ltac:(rewrite P6, V2; exact Hsb1) Hd0 Hf' E K4).
+    + injection E as <- <- <-. apply (Kc_rd _ _ (inr k) _ RD K3 HV3).
+    + injection E as <- <- <-. destruct RD as (E0 & HF & Es). apply (Kc_skip _ _ _ E0 _ HF Es K3).
+    + injection E as <- <- <-. rewrite RD. exact K3.
+  - injection E as <- <- <-. exact K3.
+  - injection E as <- <- <-. exact K3.
+  - contradiction.
+Qed.
+
+Lemma poll_input_K fuel dest r w p r' w' :
+  pinv (rsp r) -> bytes_ok (remaining w) ->
+  (length (wscript w) + length (remaining w) + 2 <= fuel)%nat ->
+  poll_input maxc fuel dest r w = (p, r', w') ->
+  Kc (abs (rsp r)) [] (segs w) -> Kc (abs (rsp r')) [] (segs w').
+Proof.
+  intros Hinv Hrem Hf E HK.
+  assert (EMPTY : stream_buffer (rsp r) = [] -> dest <> Some 0 ->
+    (match poll_output fuel r w with
+     | (PReady (inl _), r1, w1) => input_loop maxc fuel dest [] r1 w1
+     | (PReady (inr k), r1, w1) => (PReady (inr k), r1, w1)
+     | (PWake, r1, w1) => (PWake, r1, w1)
+     | (PBlock, r1, w1) => (PBlock, r1, w1)
+     end) = (p, r', w') -> Kc (abs (rsp r')) [] (segs w')).
+  { intros Esb Hd0 E1.
+    destruct (poll_output fuel r w) as [[po r1] w1] eqn:EPO.
+    destruct (poll_output_abs _ _ _ _ _ _ EPO Hinv ltac:(lia))
+      as (fl & P1 & P2 & P3 & P4 & P5 & P6 & P7 & P8 & P9 & P10 & P11 & P12).
+    pose proof (same_but_io_remaining _ _ P2) as Prem.
+    assert (Psegs : segs w1 = segs w) by apply P2.
+    assert (K1 : Kc (abs (rsp r1)) [] (segs w1)) by (rewrite Psegs, P5; exact HK).
+    destruct po as [[u|k]| |].
+    - pose proof (suffix_length _ _ P3) as Hsl.
+      apply (input_loop_K fuel dest [] r1 w1 p r' w' P10 ltac:(rewrite Prem; exact Hrem) ltac:(constructor)
+               ltac:(rewrite len_nil; lia) ltac:(rewrite P6; exact Esb) Hd0 ltac:(rewrite Prem; lia) E1 K1).
+    - injection E1 as <- <- <-. exact K1.
+    - injection E1 as <- <- <-. exact K1.
+    - contradiction. }
+  destruct dest as [[|pc]|].
+  - rewrite poll_input_zero in E. injection E as <- <- <-. exact HK.
+  - unfold poll_input in E. cbv zeta in E. destruct (stream_buffer (rsp r)) as [|x sb] eqn:Esb.
+    + apply EMPTY; [reflexivity|discriminate|exact E].
+    + cbv beta iota in E. injection E as <- <- <-. cbn [rsp].
+      destruct Hinv as [HRI HI0]. rewrite (consume_stream_abs (rsp r) _ HRI). exact HK.
+  - unfold poll_input in E. cbv zeta in E. destruct (stream_buffer (rsp r)) as [|x sb] eqn:Esb.
+    + apply EMPTY; [reflexivity|discriminate|exact E].
+    + cbv beta iota in E. injection E as <- <- <-. exact HK.
+Qed.
+
+(* what holds between the operations of a handler *)
+Definition KS (r : rstate) (w : world) : Prop :=
+  pinv (rsp r) /\ bytes_ok (remaining w) /\ Kc (abs (rsp r)) [] (segs w).
+
+Lemma await_input_KS : forall fuel dest r w x r' w', KS r w ->
+  await_input maxc fuel dest r w = Ok (x, r') w' -> KS r' w'.
+Proof.
+  induction fuel as [|f IH]; intros dest r w x r' w' (Hinv & Hrem & HK) E; [discriminate E|].
+  cbn [await_input] in E.
+  destruct (poll_input maxc (io_fuel w (len (buffer (rsp r)))) dest r w) as [[p r1] w1] eqn:EP.
+  assert (Hfu : (length (wscript w) + length (remaining w) + 2 <= io_fuel w (len (buffer (rsp r))))%nat)
+    by (rewrite io_fuel_remaining; lia).
+  destruct (poll_input_reads maxc _ dest r w p r1 w1 Hinv Hrem Hfu EP) as (dl & A & _).
+  pose proof (poll_input_K _ dest r w p r1 w1 Hinv Hrem Hfu EP HK) as K1.
+  assert (KS1 : KS r1 w1).
+  { split; [apply (ac_inv _ _ _ _ _ _ _ A)|]. split; [apply (acct_bytes_ok _ _ _ _ _ _ _ A Hrem)|exact K1]. }
+  destruct p as [y| |].
+  - injection E as <- <- <-. exact KS1.
+  - unfold on_wake in E. cbn [andb] in E. apply (IH dest r1 (w_bump w1) x r' w' KS1 E).
+  - unfold on_block in E. destruct (negb (stop_at w1 =? 0) && negb (stopped w1)); [|discriminate E].
+    apply (IH dest r1 (w_stop w1) x r' w' KS1 E).
+Qed.
+
+Lemma consume_KS r w c wr lk ab : KS r w -> KS (mkR (consume_stream (rsp r) c) wr lk ab) w.
+Proof.
+  intros ([HRI HI0] & H2 & HK). pose proof (consume_stream_abs (rsp r) c HRI) as CA.
+  split; [split; [apply consume_stream_RI; exact HRI|cbn [rsp]; rewrite CA; apply consume_stream_inv; exact HI0]|].
+  split; [exact H2|]. cbn [rsp]. rewrite CA. exact HK.
+Qed.
+
+Lemma set_stream_KS r w s p' wr lk ab : KS r w -> set_stream (rsp r) s = SetOk p' -> KS (mkR p' wr lk ab) w.
+Proof.
+  intros (Hinv & Hrem & HK) E.
+  destruct (set_stream_step maxc (rsp r) s p' Hinv E) as (I1 & _).
+  split; [exact I1|]. split; [exact Hrem|]. cbn [rsp].
+  destruct Hinv as [HRI _]. pose proof (set_stream_refines (rsp r) s HRI) as SR. rewrite E in SR.
+  destruct (aset_stream (abs (rsp r)) s) as [a1| |] eqn:EA; try contradiction. destruct SR as [_ A1]. rewrite A1.
+  unfold aset_stream in EA.
+  destruct (accepts (r_role (a_req (abs (rsp r)))) (a_stream (abs (rsp r))) s) as [[|]|] eqn:Eacc; try discriminate EA.
+  destruct (optN_eqb s (a_stream (abs (rsp r)))); injection EA as <-; [exact HK|].
+  destruct HK as (HB & vm & tl & cur & HS & Hs & Hsg & HC & HV). split; [exact HB|]. exists vm, tl, cur.
+  split; [apply (SREL_set _ _ _ _ _ _ _ _ _ _ _ HS Eacc)|]. repeat split; assumption.
+Qed.
+
+Lemma do_writeable_KS r w e r' w' : KS r w -> do_writeable maxc r w = Ok (e, r') w' -> KS r' w'.
+Proof.
+  intros H E. unfold do_writeable in E. destruct (rwriteable r); [injection E as <- <- <-; exact H|].
+  destruct (set_stream (rsp r) _) as [p'| |] eqn:Es; [|discriminate E|discriminate E].
+  pose proof (set_stream_KS r w _ p' false (rlock r) (raborted r) H Es) as H1.
+  destruct (await_input maxc (io_fuel w 0) None (mkR p' false (rlock r) (raborted r)) w) as [[[x|k] r1] w1|o w1] eqn:EA;
+    [| |discriminate E]; injection E as <- <- <-; apply (await_input_KS _ _ _ _ _ _ _ H1 EA).
+Qed.
+
+Lemma read_all_KS : forall fuel acc r w k acc' r' w', KS r w -> read_all maxc fuel acc r w = Ok (k, acc', r') w' -> KS r' w'.
+Proof.
+  induction fuel as [|f IH]; intros acc r w k acc' r' w' H E; [discriminate E|]. cbn [read_all] in E.
+  destruct (await_input maxc (io_fuel w 0) (Some 64) r w) as [[[[n b]|e] r1] w1|o w1] eqn:EA; [| |discriminate E].
+  - pose proof (await_input_KS _ _ _ _ _ _ _ H EA) as H1. destruct (n =? 0); [injection E as <- <- <- <-; exact H1|].
+    apply (IH _ _ _ _ _ _ _ H1 E).
+  - injection E as <- <- <- <-. apply (await_input_KS _ _ _ _ _ _ _ H EA).
+Qed.
+
+(* the handler's own output does not concern the client's bytes *)
+Lemma io_KS r w w' x : io_rel w w' x -> KS r w -> KS r w'.
+Proof.
+  intros (Hsame & _) (H1 & H2 & H3). assert (Hsegs : segs w' = segs w) by apply Hsame.
+  split; [exact H1|]. split; [rewrite (same_but_io_remaining _ _ Hsame); exact H2|rewrite Hsegs; exact H3].
+Qed.
+
+Lemma KS_ev r w e : KS r w -> KS r (w_ev w e).
+Proof. exact (fun H => H). Qed.
+
+Lemma run_handler_KS strict role cur script : script_ok strict role cur script ->
+  forall f r w st r' w', KS r w -> run_handler maxc f script r w = Ok (st, r') w' -> KS r' w'.
+Proof.
+  induction 1 as [cur|cur n rest H IH|cur rest H IH|cur k rest H IH|cur s rest Hacc H IH|cur rest H IH
+                  |cur s n rest H IH|cur s rest H IH|cur d c rest Hd|cur k rest|cur n rest H IH];
+    intros f r w st r' w' HSr E; (destruct f as [|f]; [discriminate E|]); cbn [run_handler] in E.
+  - injection E as <- <- <-. apply KS_ev, HSr.
+  - destruct (await_input maxc (io_fuel w 0) (Some n) r w) as [[[[c b]|k] r1] w1|o w1] eqn:EA; [| |discriminate E];
+      pose proof (await_input_KS _ _ _ _ _ _ _ HSr EA) as A; apply (IH _ _ _ _ _ _ (KS_ev _ _ _ (KS_ev _ _ _ A)) E).
+  - match type of E with context [read_all maxc ?fu [] r w] =>
+      destruct (read_all maxc fu [] r w) as [[[k acc] r1] w1|o w1] eqn:EA end; [|discriminate E].
+    pose proof (read_all_KS _ _ _ _ _ _ _ _ HSr EA) as A. apply (IH _ _ _ _ _ _ (KS_ev _ _ _ (KS_ev _ _ _ A)) E).
+  - destruct (await_input maxc (io_fuel w 0) None r w) as [[[[c b]|e] r1] w1|o w1] eqn:EA; [| |discriminate E];
+      pose proof (await_input_KS _ _ _ _ _ _ _ HSr EA) as A.
+    + apply (IH _ _ _ _ _ _ (KS_ev _ _ _ (KS_ev _ _ _ (consume_KS _ _ _ _ _ _ A))) E).
+    + apply (IH _ _ _ _ _ _ (KS_ev _ _ _ (KS_ev _ _ _ A)) E).
+  - destruct (set_stream (rsp r) (Some s)) as [p'| |] eqn:Es; [|discriminate E|discriminate E].
+    apply (IH _ _ _ _ _ _ (KS_ev _ _ _ (set_stream_KS r w (Some s) p' _ _ _ HSr Es)) E).
+  - destruct (do_writeable maxc r w) as [[e r1] w1|o w1] eqn:ED; [|discriminate E].
+    apply (IH _ _ _ _ _ _ (KS_ev _ _ _ (do_writeable_KS _ _ _ _ _ HSr ED)) E).
+  - destruct (negb (rwriteable r)); [apply (IH _ _ _ _ _ _ (KS_ev _ _ _ HSr) E)|].
+    pose proof (writer_write_all_spec (N.to_nat (n / 65535) + 2) s (r_id (sreq (rsp r))) (take n rest) w) as S.
+    destruct (writer_write_all (N.to_nat (n / 65535) + 2) s (r_id (sreq (rsp r))) (take n rest) w) as [[k|] w1|o w1];
+      cbn [wspec] in S; [| |discriminate E].
+    + destruct S as (_ & _ & b1 & b2 & _ & _ & HIO). pose proof (io_KS _ _ _ _ HIO HSr) as A.
+      injection E as <- <- <-. apply KS_ev, A.
+    + apply (IH _ _ _ _ _ _ (KS_ev _ _ _ (io_KS _ _ _ _ S HSr)) E).
+  - destruct (rwriteable r); apply (IH _ _ _ _ _ _ (KS_ev _ _ _ HSr) E).
+  - injection E as <- <- <-. apply KS_ev, HSr.
+  - injection E as <- <- <-. apply KS_ev, HSr.
+  - destruct (await_input maxc (io_fuel w 0) (Some n) r w) as [[[[c b]|k] r1] w1|o w1] eqn:EA; [| |discriminate E];
+      pose proof (await_input_KS _ _ _ _ _ _ _ HSr EA) as A.
+    + apply (IH _ _ _ _ _ _ (KS_ev _ _ _ (KS_ev _ _ _ A)) E).
+    + injection E as <- <- <-. apply KS_ev, KS_ev, A.
+Qed.
+End Layers4.
